@@ -12,6 +12,8 @@ import z3
 
 from . import smt, source
 from .spec import (
+    _plus,
+    _minus,
     CLASSES,
     NS,
     REGISTRY,
@@ -685,7 +687,7 @@ class Engine:
             n = lv.len
             k = self.norm_index(s, i.z, n)
             self.guard(s, exc, "IndexError", z3.And(0 <= k, k < n), "list index", line)
-            return [(s, unpack(ty.elem, lv.arr[lv.lo + k]))]
+            return [(s, unpack(ty.elem, lv.arr[_plus(lv.lo, k)]))]
         if isinstance(ty, TTuple) and i.ty == INT:
             iz = z3.simplify(i.z)
             n = len(c.z)
@@ -745,7 +747,7 @@ class Engine:
             a = z3.IntVal(0) if lo is None else clamp(self.norm_index(s, lo.z, n), 0, n)
             b = n if hi is None else clamp(self.norm_index(s, hi.z, n), 0, n)
             b = z3.If(b < a, a, b)
-            set_list(s, ty.elem, new, arr=lv.arr, lo=lv.lo + a, hi=lv.lo + b)
+            set_list(s, ty.elem, new, arr=lv.arr, lo=_plus(lv.lo, a), hi=_plus(lv.lo, b))
         else:
             # reversed copy: positions a, a-1, ..., b+1 (exclusive b)
             a = (n - 1) if lo is None else clamp(self.norm_index(s, lo.z, n), -1, n - 1)
@@ -755,7 +757,7 @@ class Engine:
             k = z3.Int("k!sl")
             arr = smt.fresh("revslice", z3.ArraySort(smt.Int, ty.elem.sort()))
             src_arr, src_lo = lv.arr, lv.lo
-            s.assume(z3.ForAll([k], arr[k] == src_arr[src_lo + a - k], patterns=[arr[k]]))
+            s.assume(z3.ForAll([k], arr[k] == src_arr[_plus(src_lo, a) - k], patterns=[arr[k]]))
             set_list(s, ty.elem, new, arr=arr, lo=z3.IntVal(0), hi=cnt)
         return Val(ty, new)
 
@@ -1553,7 +1555,7 @@ class Engine:
             k = self.norm_index(s, i.z, n)
             self.guard(s, exc, "IndexError", z3.And(0 <= k, k < n), "list assignment index", line)
             vz = pack(self.coerce(s, v, ty.elem, "item", line), ty.elem)
-            set_list(s, ty.elem, c.z, arr=z3.Store(lv.arr, lv.lo + k, vz))
+            set_list(s, ty.elem, c.z, arr=z3.Store(lv.arr, _plus(lv.lo, k), vz))
             self.note_write(f"LA.{sort_key(ty.elem)}")
             return [s]
         if isinstance(ty, TDict):
@@ -1689,7 +1691,7 @@ class Engine:
                     if side:
                         lv2 = ListView(s2, lst.z, lst.ty.elem)
                         s2.assume(i >= 0)
-                        item = unpack(lst.ty.elem, lv2.arr[lv2.lo + i])
+                        item = unpack(lst.ty.elem, lv2.arr[_plus(lv2.lo, i)])
                         v = Val(TTuple([INT, item.ty]), (mk_int(i), item)) if enum else item
                         for s3 in self.assign_target(stmt.target, v, s2, exc):
                             res.append((s3, True))
